@@ -43,7 +43,8 @@ func vfH_Burst() {
 			}
 		}
 	}
-	if metrics {
+	if metrics || vfParam("hashes", 0) == 1 {
+		// hashes=1: concrete key hashes (deeper histories of the thorough tier without data forks)
 		// the striped metric counters are indexed by hash%25 (symbolic hashes would fork 25 ways per
 		// counter update): metrics scenarios use concrete key hashes in shards 0/1 with different
 		// stripes; the cell layout is checked for an arbitrary hash by vfH_C17_Cells
